@@ -283,3 +283,33 @@ def dialect_init_consts(c: ClassInfo) -> dict:
                     elif isinstance(v, (ast.List, ast.Tuple)) and not v.elts:
                         out.setdefault(t.attr, ListV((), "list"))
     return out
+
+
+# ----------------------------------------------------------------------------- quoting recognition
+def quoted_spans(flat):
+    """for a flat path (list of Lit/Hole/SlotP), yield (i, j, quote_expr_text, kind) for spans flat[i+1:j] wrapped by
+    identical quote holes (kind 'hole') or by literal quote characters (kind 'lit')"""
+    out = []
+    n = len(flat)
+    for i, p in enumerate(flat):
+        if isinstance(p, Hole) and _is_quote_expr(p.value):
+            for j in range(i + 1, min(n, i + 8)):
+                q = flat[j]
+                if isinstance(q, Hole) and q.value == p.value and j > i + 1:
+                    out.append((i, j, show(p.value), "hole"))
+                    break
+    for i, p in enumerate(flat):
+        if isinstance(p, Lit) and p.text and p.text[-1] in "'\"`":
+            ch = p.text[-1]
+            for j in range(i + 1, min(n, i + 6)):
+                q = flat[j]
+                if isinstance(q, Lit):
+                    if q.text.startswith(ch) and j > i + 1:
+                        out.append((i, j, ch, "lit"))
+                    break
+    return out
+
+
+def _is_quote_expr(v) -> bool:
+    s = show(v)
+    return "quote_char" in s or s in ("'\"'", '"\'"', "'`'")
